@@ -553,3 +553,62 @@ def add_satellite_name_chain(rng, world):
                             max(w, p1[3] + 1, p2[3] + 1)]
     world['books'][0][0] = [max(rh, pr[2] + 1), max(rw, pr[3] + 1)]
     return True
+
+
+def add_satellite_block(rng, world):
+    """A 3x3 block of constants on a satellite sheet read from the root through
+    a column range and a row range that CROSS (the shared cell is reached
+    twice during lazy completion), plus an array formula next to it whose
+    non-anchor cells are read from the root - and another, earlier-sorting
+    reference into the same sheet."""
+    if len(world['books']) < 2:
+        return False
+    idx = Index(world)
+    b = rng.randrange(1, len(world['books']))
+    s = rng.randrange(len(world['books'][b]))
+    h, w = world['books'][b][s]
+    covered = set(idx.occ)
+    for c in world['cells']:
+        if 'f' in c:
+            for x in refs_of(c['f']):
+                r = x if x[0] == 'r' else world['names'][x[1]]['t']
+                covered.update(rect_cells(r))
+    for n in world['names']:
+        covered.update(rect_cells(n['t']))
+    # a free area of 3 rows x 5 columns below / right of everything
+    r0 = max([p[2] for p in covered if p[:2] == (b, s)] + [h - 1]) + 1
+    c0 = 0
+    block = {}
+    for r in range(3):
+        for c in range(3):
+            if (r, c) == (0, 0) and rng.chance(.5):
+                continue            # one blank corner
+            world['cells'].append({'at': [b, s, r0 + r, c0 + c],
+                                   'v': rng.randrange(1, 9) * (10 ** c)})
+    # array formula {D..E} of 3x1 over the first block column
+    col = c0 + 3
+    src = ['r', b, s, r0, c0 + 1, r0 + 2, c0 + 1]
+    world['cells'].append({'at': [b, s, r0, col], 'arr': [3, 1],
+                           'f': ['op', '*', src, ['n', 2]]})
+    world['books'][b][s] = [max(h, r0 + 3), max(w, col + 1)]
+    rh, rw = world['books'][0][0]
+    free_r = [(0, 0, r, c) for r in range(rh + 3) for c in range(rw + 3)
+              if (0, 0, r, c) not in covered]
+    forms = [
+        ['f', 'SUM', ['r', b, s, r0, c0 + 1, r0 + 2, c0 + 1]],     # column
+        ['f', 'SUM', ['r', b, s, r0 + 1, c0, r0 + 1, c0 + 2]],     # row
+        ['op', '+', ['r', b, s, r0 + 1, col, r0 + 1, col], ['n', 1]],  # spill
+        ['f', 'SUM', ['r', b, s, r0 + 1, col, r0 + 2, col]],       # spill part
+        ['op', '*', ['r', b, s, r0 + 2, c0 + 2, r0 + 2, c0 + 2], ['n', 3]],
+    ]
+    rng.shuffle(forms)
+    k = 0
+    for f in forms[:rng.randrange(3, 6)]:
+        if k >= len(free_r):
+            break
+        p = free_r[k]
+        k += 1
+        world['cells'].append({'at': list(p), 'f': f})
+        rh, rw = max(rh, p[2] + 1), max(rw, p[3] + 1)
+    world['books'][0][0] = [rh, rw]
+    return True
